@@ -9,6 +9,7 @@ R-BEPAIR     begin/end slots: begin fields receive begin values, end fields end 
              date field with the time field of the same slot.
 R-EDGECELLS  lateral boundary: edge -> cell-count dimension table agrees between writer and reader.
 R-VARORDER   cloud/rain: the writer emits variables in the order the reader maps the records.
+R-ONESTEP    memory-mapped met readers: the search for the second time step is defined for single-step files.
 R-API        registered writers and the readers use only numpy APIs that exist.
 """
 import ast
@@ -566,6 +567,144 @@ def check_byteorder(ctx, rule='R-BYTEORDER'):
     return n
 
 
+def _loaded_after(fn, node, names):
+    """names loaded in fn at a position after node (line order), outside node"""
+    inside = set(id(n) for n in ast.walk(node))
+    end = max(getattr(n, 'lineno', 0) for n in ast.walk(node))
+    out = set()
+    for n in ast.walk(fn):
+        if isinstance(n, ast.Name) and isinstance(n.ctx, ast.Load) and n.id in names and id(n) not in inside and n.lineno > end:
+            out.add(n.id)
+    return out
+
+
+def _is_where(c):
+    return isinstance(c, ast.Call) and (dotted(c.func) or '').split('.')[-1] in ('where', 'nonzero', 'flatnonzero', 'argwhere')
+
+
+def _zero_index(n):
+    return isinstance(n, ast.Subscript) and isinstance(n.slice, ast.Constant) and n.slice.value == 0
+
+
+def check_one_step(ctx, rule='R-ONESTEP'):
+    """The statement quantifies over files of 1..n time steps.  The memory-mapped met readers find the number of records per time step
+    by looking for the first record whose (time, date) identifier differs from that of record 0.  In a single-step file there is no
+    such record, so the search must define its result for that case as well:
+      (a) 'for i, ... in enumerate(records): if differs: break' followed by a use of i - when the loop runs out i is the last index,
+          one less than the record count, unless an else clause of the loop rebinds it;
+      (c) '(differs).argmax()' - 0 when nothing differs, unless taken under an any() test;
+      (b) 'where(differs)[0][0]' - the first element of an empty index array raises IndexError unless the array is tested first."""
+    ctx.rule(rule, 'memory-mapped met readers: the search for the first record of the second time step is defined for a single-step file')
+    src = ctx.src
+    n = 0
+    for m in src.all_modules():
+        if not (m.relpath.startswith(CAMX) and m.relpath.endswith('/Memmap.py')):
+            continue
+        for q, fn in sorted(m.functions.items()):
+            if not q.endswith('.__init__'):
+                continue
+            where = 'src/PseudoNetCDF/%s %s' % (m.relpath, q)
+            fmt = m.relpath.split('/')[1]
+            for st in iter_stmts(fn.body):
+                # (a) search loop
+                if isinstance(st, ast.For):
+                    brk = [s2 for s2 in iter_stmts(st.body) if isinstance(s2, ast.Break)]
+                    if not brk:
+                        continue
+                    others = [s2 for s2 in iter_stmts(st.body) if not isinstance(s2, (ast.Break, ast.If, ast.Pass, ast.Continue))]
+                    tnames = set(x.id for x in ast.walk(st.target) if isinstance(x, ast.Name))
+                    used = _loaded_after(fn, st, tnames)
+                    if others or not used:
+                        continue
+                    n += 1
+                    oid = '%s:for %s' % (fmt, norm(st.target))
+                    if st.orelse:
+                        rebound = set(x.id for s2 in st.orelse for x in ast.walk(s2) if isinstance(x, ast.Name) and isinstance(x.ctx, ast.Store))
+                        leaves = isinstance(st.orelse[-1], (ast.Raise, ast.Return))
+                        if used <= rebound or leaves:
+                            ctx.ok(rule, oid, where, 'the else clause of the search loop %s when no record differs'
+                                   % ('leaves' if leaves else 'rebinds %s' % ', '.join(sorted(used))))
+                            continue
+                    ctx.violation(Finding(rule, m.relpath, q, st,
+                                          'the loop searches the first record of the second time step and %s is used after it, but the loop has no else '
+                                          'clause for a single-step file: when it runs out %s is the last record index, not the record count, and the '
+                                          'layer and step counts derived from it are wrong (the file written for one time step cannot be read back)'
+                                          % (', '.join(sorted(used)), ', '.join(sorted(used)))), oid=oid)
+                    continue
+                if not isinstance(st, ast.Assign):
+                    continue
+                # (c) argmax of the comparison: 0 when no record differs
+                hit_c = False
+                for c in walk_expr(st.value):
+                    if isinstance(c, ast.Call) and ((isinstance(c.func, ast.Attribute) and c.func.attr == 'argmax') or
+                                                    (isinstance(c.func, ast.Name) and c.func.id == 'argmax')):
+                        isnp = isinstance(c.func, ast.Name) or (dotted(c.func) or '').startswith(('np.', 'numpy.'))
+                        arg = (c.args[0] if c.args else None) if isnp else c.func.value
+                        if arg is None or not any(isinstance(x, ast.Compare) for x in ast.walk(arg)):
+                            continue
+                        hit_c = True
+                        n += 1
+                        oid = '%s:%s' % (fmt, norm(st.targets[0]))
+                        guarded = False
+                        p = getattr(c, '_parent', None)
+                        while p is not None and p is not fn:
+                            if isinstance(p, (ast.IfExp, ast.If)) and any(isinstance(x, ast.Call) and isinstance(x.func, ast.Attribute) and x.func.attr == 'any'
+                                                                          for x in ast.walk(p.test)):
+                                guarded = True
+                            p = getattr(p, '_parent', None)
+                        if guarded:
+                            ctx.ok(rule, oid, where, 'argmax of the comparison is taken only when some record differs')
+                        else:
+                            ctx.violation(Finding(rule, m.relpath, q, st,
+                                                  'the first record of the second time step is taken as argmax of %s: when no record differs (a single-step '
+                                                  'file) that is 0, not the record count, and the layer and step counts derived from it are wrong'
+                                                  % norm(arg)[:70]), oid=oid)
+                if hit_c:
+                    continue
+                # (b) first element of an index array
+                for sub in walk_expr(st.value):
+                    if not _zero_index(sub):
+                        continue
+                    inner = sub.value
+                    direct = _zero_index(inner) and _is_where(inner.value)
+                    via = None
+                    if isinstance(inner, ast.Name):
+                        for s2 in iter_stmts(fn.body):
+                            if s2.lineno < st.lineno and isinstance(s2, ast.Assign) and len(s2.targets) == 1 and isinstance(s2.targets[0], ast.Name) \
+                                    and s2.targets[0].id == inner.id:
+                                via = s2 if (_zero_index(s2.value) and _is_where(s2.value.value)) or _is_where(s2.value) else None
+                    if not direct and via is None:
+                        continue
+                    wcall = inner.value if direct else (via.value.value if _zero_index(via.value) else via.value)
+                    if not any(isinstance(x, ast.Compare) for x in ast.walk(wcall)):
+                        continue
+                    n += 1
+                    oid = '%s:%s' % (fmt, norm(st.targets[0]))
+                    guarded = False
+                    if via is not None:
+                        p = getattr(sub, '_parent', None)
+                        while p is not None and p is not fn:
+                            if isinstance(p, (ast.IfExp, ast.If)) and inner.id in set(x.id for x in ast.walk(p.test) if isinstance(x, ast.Name)):
+                                guarded = True
+                            if isinstance(p, ast.Try) and p.handlers:
+                                guarded = True
+                            p = getattr(p, '_parent', None)
+                    else:
+                        p = getattr(sub, '_parent', None)
+                        while p is not None and p is not fn:
+                            if isinstance(p, ast.Try) and p.handlers:
+                                guarded = True
+                            p = getattr(p, '_parent', None)
+                    if guarded:
+                        ctx.ok(rule, oid, where, 'the index array is tested before its first element is taken')
+                    else:
+                        ctx.violation(Finding(rule, m.relpath, q, st,
+                                              'the first record of the second time step is taken as the first element of %s without testing that there is one: '
+                                              'for a single-step file the index array is empty and the reader raises IndexError (the file written for one time '
+                                              'step cannot be read back)' % norm(wcall)[:70]), oid=oid)
+    ctx.floor('step-boundary searches judged by R-ONESTEP', n, 3)
+
+
 def check_varorder(ctx):
     src = ctx.src
     wm = src.mod(CAMX + 'cloud_rain/Write.py')
@@ -884,6 +1023,7 @@ def run(ctx):
     check_landuse_order(ctx)
     ctx.rule('R-BYTEORDER', 'every emitted value has a byte order fixed by the writer (big-endian conversion or big-endian header array), never that of an input attribute')
     ctx.floor('emission sites examined for byte order', check_byteorder(ctx), 40)
+    check_one_step(ctx)
     check_landuse(ctx)
     check_api(ctx, ctx.tier)
     ctx.assumptions += ['byte order is ignored when layouts are compared (readers default to big endian, writers spell it)',
